@@ -87,7 +87,10 @@ P = dict(
                 "heterogeneous kernels: byte-sized element ranges x values of wider types whose low byte matches an element, and ranges of "
                 "different element types holding the same bytes; a (From, To) matrix of 44 duration pairs with narrow reps x 423 tick counts "
                 "(every 2^k +- 1) for duration_cast / time_point_cast / floor / ceil / round and calendar arithmetic with large counts; gcd/lcm, cmp_*, in_range, saturate_cast over 35 mixed-width (M, N) type pairs and "
-                "midpoint/add_sat/div_sat/abs/div/idiv per type on the minimum and maximum of every signed type in each argument position). The harness then calls the same function at run "
+                "midpoint/add_sat/div_sat/abs/div/idiv per type on the minimum and maximum of every signed type in each argument position; the complete char_traits interface for char, wchar_t, char8_t, char16_t, char32_t with every "
+                "(source, destination, count) overlap inside an 8-unit buffer; copies within one buffer for char / int / a non-trivial struct; "
+                "writers (from_integer, to_chars, to_string, strcpy family, 18 algorithms, inplace_string<4>) into destination arrays of "
+                "exactly the required size, one less and one more). The harness then calls the same function at run "
                 "time on volatile-laundered copies of the same arguments at -O0, -O2 and (cmath always, the rest in the thorough tier) "
                 "-O1+ASan/UBSan and compares bit for bit (NaN == NaN unless the function is defined on the sign bit). A SFINAE probe "
                 "records arguments inside the documented domain for which constant evaluation fails. Held means: no difference and no "
